@@ -120,6 +120,21 @@ class ExecAnalysis:
         self.events: List[tuple] = []   # (seq, event)
 
 
+def _program_tags(spec: dict) -> List[str]:
+    """Facts about the generated program (the input), used to pin known findings to the inputs they are about."""
+    tags = []
+    nested = set()
+    for dg in spec["dags"].values():
+        inner = [s_["dag"] for s_ in dg.get("stmts", []) if s_["k"] == "dag"]
+        nested.update(inner)
+        if len(inner) != len(set(inner)):
+            tags.append("p4:same-inner-twice")
+    for dn in nested:
+        if any(e[0] == "c" for e in spec["dags"][dn]["ret"]["items"]):
+            tags.append("p7:inner-returns-constant")
+    return sorted(set(tags))
+
+
 def analyse(run: Any, expects: Dict[tuple, Expect], retire_probe: bool = True) -> List[dict]:
     V: List[dict] = []
     scn, spec = run.scn, run.spec
@@ -135,7 +150,7 @@ def analyse(run: Any, expects: Dict[tuple, Expect], retire_probe: bool = True) -
     if run.build_error is not None:
         e = run.build_error
         V.append(viol("build_raise", f"building the program raised {type(e).__name__}: {str(e)[:300]}",
-                      tags=["exc:" + type(e).__name__], exc_type=type(e).__name__, exc_msg=str(e)[:300]))
+                      tags=["exc:" + type(e).__name__] + _program_tags(spec), exc_type=type(e).__name__, exc_msg=str(e)[:300]))
         return V
 
     # ---- split events by execution token
